@@ -50,7 +50,12 @@ pub fn scenario(max_ops: usize, big: u32) -> impl Strategy<Value = Scenario> {
 			1 => Just(Op::Reopen),
 			1 => Just(Op::Drain),
 		];
-		proptest::collection::vec(op, 10..=max_ops).prop_map(move |ops| Scenario { cfg: cfg.clone(), ops })
+		(proptest::collection::vec(op, 10..=max_ops), prop_oneof![11 => Just(0u8), 1 => 8u8..=15]).prop_map(move |(ops, pad)| {
+			let mut sc = Scenario { cfg: cfg.clone(), ops };
+			// one history in twelve on a wide database: the data columns get ids 8-17
+			crate::gen::widen(&mut sc, pad);
+			sc
+		})
 	})
 }
 
@@ -98,6 +103,15 @@ pub fn run_scenario(sc: &Scenario, dir: &std::path::Path, background: bool) -> C
 		if c.compression != 0 {
 			out.label("col-compressed");
 		}
+	}
+	if sc.cfg.cols.len() >= 9 {
+		out.label("wide-database-column-ids-8-to-17");
+	}
+	if sc.cfg.salt_from_meta {
+		out.label("salt-from-metadata");
+	}
+	if sc.cfg.stats {
+		out.label("stats-on");
 	}
 	if sc.cfg.zero_salt {
 		out.label("zero-salt");
